@@ -29,6 +29,8 @@ func init() {
 			{"C10.NILDEREF", "zzControlGood_C10_NILDEREF", false},
 			{"C10.TERMINALNIL", "zzControlBad_C10_TERMINALNIL", true},
 			{"C10.TERMINALNIL", "zzControlGood_C10_TERMINALNIL", false},
+			{"C10.MAKEAPPEND", "zzControlBad_C10_MAKEAPPEND", true},
+			{"C10.MAKEAPPEND", "zzControlGood_C10_MAKEAPPEND", false},
 			{"C10.TABLEINDEX", "zzControlBad_C10_TABLEINDEX", true},
 			{"C10.TABLEINDEX", "zzControlGood_C10_TABLEINDEX", false},
 		},
@@ -40,6 +42,7 @@ func rulesC10(c *Ctx) {
 	ruleNilDeref(c, "C10.NILDEREF", c.prodFuncs("ast", "objectz", "boltz"))
 	c.Floor("C10.NILDEREF", 60)
 	ruleTerminalNil(c, "C10.TERMINALNIL")
+	ruleMakeThenAppend(c, "C10.MAKEAPPEND", "ast", "boltz", "objectz")
 	ruleC10LexErr(c)
 	ruleC10Panic(c)
 	ruleC10NilRecv(c)
